@@ -848,6 +848,22 @@ func checkNondetSources(c *core.Ctx, l *core.Ledger) {
 			if banned[full] || o.Pkg().Path() == "math/rand" || o.Pkg().Path() == "crypto/rand" {
 				l.Bad("SOURCES", core.SSAName(f)+":"+full, c.Rel(in.Pos()), "nondeterminism source "+full+" is reachable from code generation", core.PathTo(reach, f)...)
 			}
+			// map iterators (Go 1.23 maps.Keys/Values/All) and reflect map walks expose map order unless sorted at once
+			if full == "maps.Keys" || full == "maps.Values" || full == "maps.All" || full == "reflect.MapKeys" || full == "reflect.MapRange" {
+				sorted := false
+				if v, isV := in.(ssa.Value); isV && v.Referrers() != nil {
+					for _, r := range *v.Referrers() {
+						if c2, isC := r.(ssa.CallInstruction); isC {
+							if o2 := core.CalleeObj(c2); o2 != nil && o2.Pkg() != nil && (o2.Pkg().Path() == "slices" && strings.HasPrefix(o2.Name(), "Sorted") || o2.Pkg().Path() == "sort") {
+								sorted = true
+							}
+						}
+					}
+				}
+				if !sorted && !isSortedKeysHelper(f) && core.PkgRel(f) != "internal/concurrent" {
+					l.Bad("SOURCES", core.SSAName(f)+":"+full, c.Rel(in.Pos()), "map iteration order enters through "+full+" without an immediate sort", core.PathTo(reach, f)...)
+				}
+			}
 			if _, isGo := in.(*ssa.Go); isGo && core.PkgRel(f) != "internal/concurrent" {
 				l.Bad("SOURCES", core.SSAName(f)+":go", c.Rel(in.Pos()), "goroutine started during generation outside internal/concurrent: result order may depend on scheduling", core.PathTo(reach, f)...)
 			}
@@ -869,4 +885,17 @@ func checkNondetSources(c *core.Ctx, l *core.Ledger) {
 			}
 		})
 	}
+}
+
+// isSortedKeysHelper: f collects map keys and sorts them before returning (sortStringKeys).
+func isSortedKeysHelper(f *ssa.Function) bool {
+	sorts := false
+	core.Instrs(f, func(in ssa.Instruction) {
+		if call, ok := in.(ssa.CallInstruction); ok {
+			if o := core.CalleeObj(call); o != nil && o.Pkg() != nil && (o.Pkg().Path() == "sort" || o.Pkg().Path() == "slices" && strings.HasPrefix(o.Name(), "Sort")) {
+				sorts = true
+			}
+		}
+	})
+	return sorts
 }
